@@ -11,11 +11,9 @@ C13_OPS = ['prefix_increment', 'prefix_decrement', 'postfix_increment', 'postfix
            'logical_not', 'bitwise_not', 'add', 'subtract', 'multiply', 'divide', 'modulus', 'left_shift',
            'right_shift', 'bitwise_and', 'bitwise_or', 'bitwise_xor', 'boolean_and', 'boolean_or', 'less_than',
            'less_equal', 'greater_than', 'greater_equal', 'equality', 'inequality']
-# 128-bit / 32-bit multiplier and divider equivalence does not finish in CBMC (see DESIGN.md I.3): being sized
-C13_HEAVY = ('multiply', 'divide', 'modulus')
 
 ALL_V_UNITS = ['cond_chain', 'cond_parser', 'bindings', 'lexer_digits', 'token_stream', 'source_manager', 'layout',
-               'hlsl_bindings', 'hlsl_analyse', 'hlsl_expr', 'hlsl_literal', 'msl_literal']
+               'hlsl_bindings', 'hlsl_analyse', 'hlsl_expr', 'hlsl_literal', 'msl_literal', 'evaluator']
 
 PROPS = {
     'C01': {
@@ -73,14 +71,23 @@ PROPS = {
     },
     'C13': {
         'title': 'Compile-time constant evaluation matches run-time semantics',
-        'v_units': [],
+        'v_units': ['evaluator'],
         'k_groups': [
             {'module': 'typer/evaluator.rs',
-             'harnesses': [('c13_op_' + o, 'complete') for o in C13_OPS if o not in C13_HEAVY]
-                          + [('c13_op_nonconstant_argument_propagates', 'complete')],
+             'harnesses': [('c13_op_' + o, 'complete') for o in C13_OPS if o not in ('divide', 'modulus')]
+                          + [('c13_op_nonconstant_argument_propagates', 'complete'),
+                             # divisor in {0, 1, -1 / all-ones}, any dividend: the cases the statement singles out
+                             ('c13_op_divide_special_divisors', 'complete'), ('c13_op_modulus_special_divisors', 'complete')]
+                          + [('c13_cast_to_' + t, 'complete') for t in ('bool', 'int', 'uint', 'half', 'float', 'double', 'enum_int', 'enum_uint')],
              'tier': 'quick'},
             {'module': 'ir/ir_types.rs',
              'harnesses': [('c13_to_uint64_is_the_nonnegative_integer_value', 'complete')], 'tier': 'quick'},
+            {'module': 'typer/evaluator.rs',
+             'harnesses': [('c13_op_multiply_intlit_bounded', 'bounded:untyped literal operands of magnitude < 2^20'),
+                           ('c13_op_divide_small_bounded', 'bounded:integer operands of magnitude < 2^12'),
+                           ('c13_op_modulus_small_bounded', 'bounded:integer operands of magnitude < 2^12'),
+                           ],
+             'tier': 'thorough'},
         ],
         'design_ref': 'DESIGN.md Part I, I.4 (C13)',
     },
